@@ -192,6 +192,9 @@ class _SymNum(_Sym):
             return NotImplemented
         if _isnan(o):
             return nan_result
+        if isinstance(o, (float, numpy.floating)) and float(o) in (float("inf"), float("-inf")):
+            # a symbolic real is finite: comparisons with an infinity are decided (same answers as IEEE)
+            return bool(op(0.0, float(o)))
         ta, tb = term(self), term(o)
         if ta.sort() != tb.sort():
             ta, tb = _real(ta), _real(tb)
@@ -658,6 +661,15 @@ class TypedNumpy:
     def full(self, shape, fill_value, dtype=None, **kw):
         return typed_empty(shape, dtype, fill=fill_value)
 
+    def asarray(self, a, dtype=None, **kw):
+        """a conversion to a float dtype leaves symbols alone, one to an integer dtype truncates them"""
+        if _CUR is not None and isinstance(a, numpy.ndarray) and a.dtype == object:
+            if dtype is None or numpy.dtype(dtype).kind == "f":
+                return a.view(SArr)
+            if numpy.dtype(dtype).kind in "iu":
+                return int_array([strunc(v) for v in a.ravel()]).reshape(a.shape)
+        return numpy.asarray(a, dtype=dtype, **kw)
+
 
 def sarr(data):
     return SArr(data)
@@ -1005,6 +1017,9 @@ class Engine:
             pass
 
     def prove_eq(self, a, b, label, detail=None):
+        if _isnan(a) or _isnan(b):
+            # a NaN equals nothing but (for the purpose of "same result") another NaN
+            return self.prove(bool(_isnan(a) and _isnan(b)), label, detail if detail is not None else "NaN")
         if is_sym(a) or is_sym(b):
             ta, tb = term(a), term(b)
             if ta.sort() != tb.sort():
